@@ -147,6 +147,7 @@ Step(st0, e, strict) ==
                  ELSE LET bytesOf(a) == LET hit == {i \in 1..Len(e.atab) : e.atab[i][1] = a} IN IF hit = {} THEN <<>> ELSE e.atab[Pick(hit)][2]
                           nv == IF e.b = <<>> \/ m.lostnote THEN "" ELSE NoticeVerdict(e.b, {bytesOf(a) : a \in failed}, e.pfx, st.crashed)
                       IN IF nv # "" THEN R(st, "C14:" \o nv)
+                         ELSE IF e.b # <<>> /\ OversizedParagraph(e.b) THEN R(st, "C18:OversizedReportNotTruncated")
                          ELSE R([st EXCEPT !.msgs[n].bounced = m.bounced \cup (IF e.b = <<>> THEN named ELSE failed \cup named), !.msgs[n].bq = TRUE], "")
     [] e.op = "rmbounce" ->
          IF ~m.alive THEN R(st, "")
@@ -188,7 +189,9 @@ Step(st0, e, strict) ==
                                             IF <<k, st.msgs[k].recs[i].c>> \notin busy THEN [st.msgs[k].recs[i] EXCEPT !.alrmed = TRUE] ELSE st.msgs[k].recs[i]]]]], "")
          ELSE R(st, "")
     [] e.op = "spawnerdied" -> R([st EXCEPT !.dead[e.c + 1] = TRUE], "")
-    [] e.op = "sendexit" -> R([st EXCEPT !.up = FALSE, !.fl = {}], "")
+    [] e.op = "sendexit" ->        \* status as the parent sees it: exit code, or minus the signal that killed it
+         IF e.status \in {-11, -6, -7, -8, -4} THEN R([st EXCEPT !.up = FALSE, !.fl = {}], "C18:QueueManagerCrashed")   \* SEGV ABRT BUS FPE ILL: never the environment's doing
+         ELSE R([st EXCEPT !.up = FALSE, !.fl = {}], "")
     [] e.op = "fault" -> \* after an injected failure the retry schedule may legitimately be SLEEP_SYSFAIL based, and a mark may not have been written
          R([st EXCEPT !.faulted = TRUE, !.msgs = [k \in 1..NMAX |-> [st.msgs[k] EXCEPT !.recs = [i \in 1..Len(st.msgs[k].recs) |-> [st.msgs[k].recs[i] EXCEPT !.free = FALSE]]]]], "")
     [] e.op = "quiet" ->
